@@ -398,7 +398,7 @@ def build_plain():
     class is handed out again at once.  Address-reuse (ABA) defects — anything keyed on a raw holder or
     container address that outlives the object — only show on this build."""
     src = vlib.VERIF / "harness" / "h_any.cpp"
-    outdir = vlib.BUILD / "plain"
+    outdir = vlib.BUILD / ("plain-" + __import__("hashlib").sha256(str(vlib.VERIF).encode()).hexdigest()[:8])
     outdir.mkdir(parents=True, exist_ok=True)
     binary, dep = outdir / "h_any", outdir / "h_any.d"
     with vlib.locked("h-plain-h_any"):
